@@ -176,7 +176,13 @@ class ClientAuthenticator:
             'Authentication mechanism failed: '
             + line.decode("ascii", "replace")
         )
-        self.authTryNextMethod()
+        if self.negotiatingUnixFD:
+            # The server accepted the mechanism but does not pass file
+            # descriptors: carry on without them
+            self.sendAuthMessage(b'BEGIN')
+            self.authenticated = True
+        else:
+            self.authTryNextMethod()
 
     # -------------------------------------------------
 
